@@ -472,6 +472,33 @@ def run(chk) -> None:
         fields = [x.attr for x in ast.walk(rets[0]) if isinstance(x, ast.Attribute)] if rets else []
         ok = len(rets) == 1 and isinstance(rets[0].value, ast.Compare) and set(fields) <= {"model", "chain", "number", "icode"} and {"chain", "number", "icode"} <= set(fields)
         chk.expect(ok, "identity-order", fi.where, f"{cls} order compares (chain, number, icode) (and model) lexicographically", f"{cls}.__lt__ does not compare exactly (model,) chain, number, icode", K(fi, "lt"), found=sorted(set(fields)))
+    # ---- a residue is identified by chain, number AND insertion code: a key made of some of them merges residues -------------
+    chk.robust |= {"identity-partial-key"}
+    n_keys = 0
+    for m, q in sorted(reach):
+        fi = repo.modules[m].funcs[q]
+        for tup in [x for x in ast.walk(fi.node) if isinstance(x, ast.Tuple) and isinstance(getattr(x, "ctx", None), ast.Load)]:
+            groups: dict = {}
+            for e in tup.elts:
+                v = e.values[0] if isinstance(e, ast.BoolOp) and isinstance(e.op, ast.Or) else e
+                if isinstance(v, ast.Attribute) and v.attr in ("chain", "number", "icode", "model", "name") and not isinstance(v.value, ast.Constant):
+                    groups.setdefault(norm(v.value), set()).add(v.attr)
+            for base, fields in sorted(groups.items()):
+                if not {"chain", "number"} <= fields:
+                    continue
+                n_keys += 1
+                whole = any(norm(e) == base for e in tup.elts)
+                chk.expect(
+                    "icode" in fields or whole,
+                    "identity-partial-key",
+                    fi.site(tup),
+                    f"`{norm(tup)[:70]}` names `{base}` by chain, number and insertion code",
+                    f"`{norm(tup)[:90]}` identifies `{base}` by {sorted(fields)} without the insertion code: two residues of one chain that share the number (27 and 27A) get the same key - as a dictionary key or set member they collapse into one entry (the later one wins), as a sort key they tie",
+                    K(fi, f"partial-key:{base}"),
+                    expected=["chain", "number", "icode"],
+                    found=sorted(fields),
+                )
+    chk.ok("identity-partial-key", "annotation path", f"{n_keys} tuples built from the chain and number of one residue, each with its insertion code")
     from checks import c11e
 
     c11e.check_order_keys(chk, rule="identity-order")
